@@ -592,6 +592,28 @@ class Interp:
         if isinstance(st, (ast.Pass, ast.Import, ast.ImportFrom, ast.Global, ast.Nonlocal, ast.Assert, ast.Delete, ast.ClassDef)):
             return
 
+    def _signature_default(self, node, fr):
+        """inspect.signature(self.__init__).parameters["p"].default : the default of p in the constructor of the CONCRETE class of self"""
+        sub = node.value
+        if not (isinstance(sub, ast.Subscript) and isinstance(sub.slice, ast.Constant) and isinstance(sub.slice.value, str) and isinstance(sub.value, ast.Attribute)
+                and sub.value.attr == "parameters" and isinstance(sub.value.value, ast.Call)):
+            return None
+        call = sub.value.value
+        fn = call.func
+        if not ((isinstance(fn, ast.Name) and fn.id == "signature") or (isinstance(fn, ast.Attribute) and fn.attr == "signature")) or len(call.args) != 1:
+            return None
+        a = call.args[0]
+        if not (isinstance(a, ast.Attribute) and a.attr == "__init__" and isinstance(a.value, ast.Name) and a.value.id == "self" and fr.self_obj is not None
+                and fr.self_obj.cls is not None):
+            return None
+        C, init = self.pm.resolve_method(fr.self_obj.cls, "__init__")
+        if init is None or C.external:
+            return None
+        params = [x.arg for x in init.args.args]
+        defaults = dict(zip(params[len(params) - len(init.args.defaults):], init.args.defaults))
+        d = defaults.get(sub.slice.value)
+        return self.eval(d, fr) if d is not None else None
+
     def exec_guarded(self, body, fr):
         self.exec_block(body, fr)
 
@@ -726,6 +748,10 @@ class Interp:
                 return env[node.id]
             return self.global_name(node.id, fr)
         if isinstance(node, ast.Attribute):
+            if node.attr == "default":
+                v_ = self._signature_default(node, fr)
+                if v_ is not None:
+                    return v_
             return self.eval_attribute(node, fr)
         if isinstance(node, ast.Subscript):
             base = self.eval(node.value, fr)
